@@ -387,6 +387,11 @@ fn try_mutate(rng: &mut Rng, cfg: &DocCfg, doc: &mut Value) -> Option<&'static s
                 }
                 return Some("edit-char");
             }
+            if rng.chance(1, 8) {
+                // reduced to its identifier: the stored content becomes the empty object
+                o.retain(|k, _| k == "_id");
+                return Some("empty-elem");
+            }
             if del {
                 o.remove(f);
             } else {
